@@ -50,6 +50,9 @@ St0 == [p |-> Proc0,
         suFailed |-> {}, tdFailed |-> {}, notimpl |-> {},
         suFails |-> <<>>, tdFails |-> <<>>,   \* every failing hook call, in order
         crashes |-> 0, exits |-> 0, procs |-> 0,
+        lookalikes |-> 0,        \* lines on a child's fd 2 that parse as a report header
+        spawnFailed |-> 0,       \* Popen raised for a layer subprocess
+        reportCut |-> 0,         \* a child's report was cut short / it died writing it
         parentCant |-> FALSE,
         at |-> 0,                \* index of the event being consumed
         errs |-> <<>>]
@@ -62,6 +65,12 @@ Note1(s, f, c) == IF c = "" \/ HasFam(s, f) THEN s
 RECURSIVE NoteAll(_, _)
 NoteAll(s, cs) == IF cs = <<>> THEN s
                   ELSE NoteAll(Note1(s, Head(cs)[1], Head(cs)[2]), Tail(cs))
+(* end-of-trace clauses are independent of each other: record every one    *)
+NoteF(s, f, c) == IF c = "" THEN s
+                  ELSE [s EXCEPT !.errs = Append(s.errs, <<f, c, s.at>>)]
+RECURSIVE NoteAllF(_, _)
+NoteAllF(s, cs) == IF cs = <<>> THEN s
+                   ELSE NoteAllF(NoteF(s, Head(cs)[1], Head(cs)[2]), Tail(cs))
 C01(c) == <<"C01", c>>
 C02(c) == <<"C02", c>>
 C03(c) == <<"C03", c>>
@@ -87,9 +96,9 @@ Step(w, o, s, e) ==
              c16 == IF o.stop /\ s1.role = "parent" /\ o.j <= 1
                        /\ (s1.procBad \/ s1.procSUFail)
                     THEN "C16:layer-after-stop" ELSE ""
-             s2 == NoteAll(s1, <<C01(SetUpBeginErr(w, s1.p, e.l)),
-                                 C05(BracketClosedErr(s1.p)), C16(c16)>>)
-         IN [s2 EXCEPT !.p = SetUpBegin(s2.p, e.l)]
+             b == BrIdle(w, s1.p)
+             s2 == NoteAll(s1, <<C01(SetUpBeginErr(w, s1.p, e.l)), C05(b[1]), C16(c16)>>)
+         IN [s2 EXCEPT !.p = SetUpBegin(b[2], e.l)]
     [] e.e = "SUE" ->
          LET s2 == Note1(s, "C01", SetUpEndErr(w, s.p, e.l))
          IN [s2 EXCEPT !.p = SetUpEnd(s2.p, e.l, e.s),
@@ -98,9 +107,9 @@ Step(w, o, s, e) ==
                        !.procSUFail = @ \/ e.s # "ok"]
     [] e.e = "TDB" ->
          LET s1 == FinishCur(w, s)
-             s2 == NoteAll(s1, <<C01(TearDownBeginErr(w, s1.p, e.l)),
-                                 C05(BracketClosedErr(s1.p))>>)
-         IN [s2 EXCEPT !.p = TearDownBegin(s2.p, e.l)]
+             b == BrIdle(w, s1.p)
+             s2 == NoteAll(s1, <<C01(TearDownBeginErr(w, s1.p, e.l)), C05(b[1])>>)
+         IN [s2 EXCEPT !.p = TearDownBegin(b[2], e.l)]
     [] e.e = "TDE" ->
          LET s2 == Note1(s, "C01", TearDownEndErr(w, s.p, e.l))
          IN [s2 EXCEPT !.p = TearDownEnd(s2.p, e.l, e.s),
@@ -109,39 +118,46 @@ Step(w, o, s, e) ==
                        !.notimpl = IF e.s = "notimpl" THEN @ \cup {e.l} ELSE @,
                        !.parentCant = @ \/ (e.s = "notimpl" /\ s.role = "parent")]
     [] e.e = "TSU" ->
-         LET s1 == IF s.p.br = <<>> THEN FinishCur(w, s) ELSE s
-             s2 == Note1(s1, "C05", TestSetUpErr(w, s1.p, e.l))
-         IN [s2 EXCEPT !.p = TestSetUp(s2.p, e.l)]
+         \* a testSetUp after a test phase / testTearDown opens the next bracket
+         LET s1 == IF Used(s.p) THEN FinishCur(w, s) ELSE s
+             b == BrTestSetUp(w, s1.p, e.l)
+             s2 == Note1(s1, "C05", b[1])
+         IN [s2 EXCEPT !.p = b[2]]
     [] e.e = "TTD" ->
-         LET s2 == Note1(s, "C05", TestTearDownErr(w, s.p, e.l))
-             s3 == [s2 EXCEPT !.p = IF s2.p.br = <<>> THEN s2.p
-                                    ELSE TestTearDown(s2.p, e.l)]
-         IN IF s3.p.br = <<>> THEN FinishCur(w, s3) ELSE s3
+         LET b == BrTestTearDown(w, s.p, e.l)
+             s2 == Note1(s, "C05", b[1])
+         IN [s2 EXCEPT !.p = b[2]]
     [] e.e = "T" ->
-         IF s.cur = e.t /\ s.curIt = e.it THEN s    \* a later phase of the same test
+         IF s.cur = e.t /\ s.curIt = e.it
+         THEN Note1(s, "C05", SamePhaseErr(s.p))      \* a later phase of the same test
          ELSE
-         LET open == s.p.ph = "running" /\ s.p.br # <<>>  \* previous bracket never closed
-             s1 == FinishCur(w, IF open THEN Note1(s, "C05", "C05:unbalanced") ELSE s)
-             s1b == IF open THEN [s1 EXCEPT !.p.br = <<>>, !.p.ph = "idle"] ELSE s1
+         LET s1 == FinishCur(w, s)
              tl == LayerOf(w, e.t)
              c03 == IF e.t \notin Selected(w, o) THEN "C03:not-selected"
                     ELSE IF e.it > o.repeat THEN "C03:too-many-iterations"
-                    ELSE IF <<e.t, e.it>> \in s1b.seen THEN "C03:twice"
+                    ELSE IF <<e.t, e.it>> \in s1.seen THEN "C03:twice"
                     ELSE IF o.list THEN "C03:list-ran-code"
-                    ELSE IF s1b.role = "child" /\ s1b.resume # tl
+                    ELSE IF s1.role = "child" /\ s1.resume # tl
                          THEN "C03:wrong-process"
                     ELSE ""
-             c16 == IF o.stop /\ s1b.procBad THEN "C16:test-after-stop" ELSE ""
-             s2 == NoteAll(s1b, <<C01(TestStartErr(w, s1b.p, tl)),
-                                  C05(BracketAtTestErr(w, s1b.p, tl)), C03(c03), C16(c16)>>)
-         IN [s2 EXCEPT !.p = TestRuns(s2.p), !.cur = e.t, !.curIt = e.it,
+             c16 == IF o.stop /\ s1.procBad THEN "C16:test-after-stop" ELSE ""
+             b == BrTest(w, s1.p, tl)
+             s2 == NoteAll(s1, <<C01(TestStartErr(w, s1.p, tl)), C05(b[1]), C03(c03), C16(c16)>>)
+         IN [s2 EXCEPT !.p = b[2], !.cur = e.t, !.curIt = e.it,
                        !.seen = @ \cup {<<e.t, e.it>>},
                        !.where = @ \cup {<<tl, s2.pidx>>}]
     [] e.e = "PX" ->
          LET s1 == FinishCur(w, s)
-             s2 == NoteAll(s1, <<C01(ProcEndErr(w, s1.p)), C05(BracketClosedErr(s1.p))>>)
-         IN [s2 EXCEPT !.exits = @ + 1]
+             b == BrIdle(w, s1.p)
+             nghost == b[2].ghosts
+             c05g == IF nghost > Cardinality({t \in Selected(w, o) : w.decoSkip[t]}) * o.repeat
+                     THEN "C05:hooks-around-no-test" ELSE ""
+             s2 == NoteAll(s1, <<C01(ProcEndErr(w, s1.p)), C05(b[1]), C05(c05g)>>)
+         IN [s2 EXCEPT !.exits = @ + 1, !.p = b[2]]
     [] e.e = "CRASH" -> [FinishCur(w, s) EXCEPT !.crashes = @ + 1]
+    [] e.e = "SP" -> IF e.s = "fail" THEN [s EXCEPT !.spawnFailed = @ + 1] ELSE s
+    [] e.e = "LOOK" -> IF s.role = "child" THEN [s EXCEPT !.lookalikes = @ + 1] ELSE s
+    [] e.e = "CUT" -> [s EXCEPT !.reportCut = @ + 1]
     [] OTHER -> s
 
 (* ----- end-of-trace clauses ------------------------------------------------*)
@@ -209,22 +225,35 @@ ListsErr(w, o, s, r) ==
         THEN "C12:layer-failure-list"
      ELSE ""
 
+(* Layers whose closure was set up fine (their tests could run).              *)
+LayerRunnable(w, s, l) == Closure(w.bases, l) \cap s.suFailed = {}
+
 TotalsErr(w, o, s, r) ==
-  LET nd == SumOver(LAMBDA l : Cardinality(DecoSkips(w, o, l)), Layers(w) \cup {Unit})
+  LET RunL == {l \in Layers(w) \cup {Unit} : LayerRunnable(w, s, l)}
+      nd == SumOver(LAMBDA l : Cardinality(DecoSkips(w, o, l)), RunL)
       ranAll == Cardinality(s.seen) + nd * o.repeat
+      ranLast == Cardinality({x \in s.seen : x[2] = o.repeat}) + nd
       f == KindSum(w, s.seen, FailKinds)
       e == KindSum(w, s.seen, ErrKinds) + Len(s.suFails) + Len(s.tdFails) + s.crashes
       sk == KindSum(w, s.seen, SkipKinds) + nd * o.repeat
+      \* the part of sk that arose in the parent process itself
+      ParentL == {l \in RunL : <<l, 1>> \in s.where \/ (\A x \in s.where : x[1] # l)}
+      ndP == SumOver(LAMBDA l : Cardinality(DecoSkips(w, o, l)),
+                     {l \in RunL : <<l, 1>> \in s.where})
+      skParent == KindSum(w, {x \in s.seen : <<LayerOf(w, x[1]), 1>> \in s.where}, SkipKinds)
+                  + ndP * o.repeat
   IN IF r.total[2] # f THEN "C12:total-failures"
      ELSE IF r.total[3] # e THEN "C12:total-errors"
-     ELSE IF r.total[4] # sk THEN "C12:total-skipped"
-     ELSE IF r.total[1] # ranAll THEN "C12:total-ran"
+     ELSE IF r.total[4] # sk THEN
+          (IF s.procs > 1 /\ r.total[4] = skParent
+           THEN "C12:total-skipped-omits-child-layers" ELSE "C12:total-skipped")
+     ELSE IF r.total[1] # ranAll THEN
+          (IF o.repeat > 1 /\ r.total[1] = ranLast
+           THEN "C12:total-ran-counts-last-iteration-only" ELSE "C12:total-ran")
      ELSE ""
 
 (* Layers whose tests must all have run: selected, closure set up fine, not   *)
 (* cut off by --stop-on-error, the run did not crash.                         *)
-LayerRunnable(w, s, l) == Closure(w.bases, l) \cap s.suFailed = {}
-
 ExpectedRuns(w, o, s) ==
   {<<t, k>> \in Selected(w, o) \X (1..o.repeat) :
       LayerRunnable(w, s, LayerOf(w, t)) /\ ~w.decoSkip[t]}
@@ -232,7 +261,7 @@ ExpectedRuns(w, o, s) ==
 AnyBad(w, o, s) ==
   \/ \E x \in s.seen : IsBad(w, x[1])
   \/ s.suFailed # {} \/ s.tdFailed # {}
-  \/ s.crashes > 0 \/ w.importFails \/ w.spawnFails
+  \/ s.crashes > 0 \/ w.importFails \/ s.spawnFailed > 0 \/ s.reportCut > 0
 
 Final(w, o, s, r) ==
   LET c04 == IF r.crashed # "" THEN "C04:aborted"
@@ -251,7 +280,10 @@ Final(w, o, s, r) ==
                   THEN "C01:resume-not-fresh"
              ELSE ""
       c02 == IF o.list THEN ""
-             ELSE IF r.failed # AnyBad(w, o, s) THEN "C02:verdict" ELSE ""
+             ELSE IF r.failed # AnyBad(w, o, s) THEN
+                  (IF ~r.failed /\ s.lookalikes > 0
+                   THEN "C02:passed-after-header-lookalike-on-child-fd2" ELSE "C02:verdict")
+             ELSE ""
       c16 == IF o.stop /\ AnyBad(w, o, s) /\ ~o.list
                 /\ (~r.failed \/ (~r.hasSummary /\ s.seen # {}))
              THEN "C16:verdict" ELSE ""
@@ -270,8 +302,29 @@ Final(w, o, s, r) ==
       c12a == IF quiet THEN "" ELSE FirstSummaryErr(w, o, s, r)
       c12b == IF quiet \/ o.verbose = 0 THEN "" ELSE ListsErr(w, o, s, r)
       c12c == IF quiet \/ ~r.hasTotal \/ o.stop THEN "" ELSE TotalsErr(w, o, s, r)
-  IN NoteAll(s, <<C04(c04), C04(c04b), C03(c03), C03(c03b), C01(c01), C02(c02),
-                  C16(c16), C12(c12a), C12(c12b), C12(c12c)>>)
+      \* the same world run in another execution mode (in-process, -j N,
+      \* resumed children): same totals, same verdict, same lists (as bags)
+      PeerOK(p) == p.crashed = "" /\ r.crashed = ""
+      c12d == IF quiet \/ o.stop THEN ""
+              ELSE IF \E k \in 1..Len(r.peers) :
+                        /\ PeerOK(r.peers[k]) /\ r.hasTotal /\ r.peers[k].hasTotal
+                        /\ r.peers[k].total # r.total
+                   THEN (IF \A k \in 1..Len(r.peers) :
+                              (PeerOK(r.peers[k]) /\ r.peers[k].hasTotal) =>
+                                 \A j \in 1..3 : r.peers[k].total[j] = r.total[j]
+                         THEN "C12:modes-totals-differ-in-skipped"
+                         ELSE "C12:modes-totals-differ")
+              ELSE IF \E k \in 1..Len(r.peers) :
+                        /\ PeerOK(r.peers[k]) /\ o.verbose > 0 /\ r.peers[k].hasLists
+                        /\ \/ \E t \in Tests(w) : CountIn(r.failIds, t) # CountIn(r.peers[k].failBag, t)
+                           \/ \E t \in Tests(w) : CountIn(r.errIds, t) # CountIn(r.peers[k].errBag, t)
+                   THEN "C12:modes-lists-differ"
+              ELSE ""
+      c02b == IF o.list THEN ""
+              ELSE IF \E k \in 1..Len(r.peers) : PeerOK(r.peers[k]) /\ r.peers[k].failed # r.failed
+                   THEN "C02:modes-verdict-differs" ELSE ""
+  IN NoteAllF(s, <<C04(c04), C04(c04b), C03(c03), C03(c03b), C01(c01), C02(c02), C02(c02b),
+                  C16(c16), C12(c12a), C12(c12b), C12(c12c), C12(c12d)>>)
 
 (* ----- behaviour -----------------------------------------------------------*)
 Ev(t) == Traces[t].ev
